@@ -1,7 +1,7 @@
 (* Properties/C05.v — arrange orders stably; window functions see the right rows in the right order. *)
 From Coq Require Import List String NArith ZArith Bool Permutation.
 From PDT Require Import Base.StableSort Model.Dtype Model.Value Model.Ops Model.Expr Model.RefSem
-     Proofs.SortLemmas Proofs.RefLemmas Proofs.ArrangeLemmas.
+     Model.SqlCompile Model.PlCompile Proofs.SortLemmas Proofs.RefLemmas Proofs.ArrangeLemmas Proofs.EvalRel Proofs.PlCompileLemmas.
 From PDTGen Require Import Catalogue.
 Import ListNotations.
 Open Scope list_scope.
@@ -65,6 +65,23 @@ Theorem window_mutate_keeps_rows : forall s defs,
 Proof. exact mutate_preserves_length. Qed.
 Print Assumptions window_mutate_keeps_rows.
 
+(* an expression of ANY form - window function with partition_by and arrange=, aggregate, element-wise -
+   has the same value in two contexts whose rows agree, position by position, on the columns it mentions:
+   what a window function returns depends on nothing but those rows and their order *)
+Theorem window_value_depends_on_the_rows_only : forall e ctx ctx' cur cur',
+  Forall2 (irel (cols e)) ctx ctx' -> irel (cols e) cur cur' -> eval ctx cur e = eval ctx' cur' e.
+Proof. exact eval_rel. Qed.
+Print Assumptions window_value_depends_on_the_rows_only.
+
+(* the Polars plan (transcription of the Polars compile_ast, tied to the real one by the L3 correspondence)
+   hands every window / aggregate function the rows the reference semantics hands it, in the same order:
+   the exported frame of any single-source pipeline - arranges, windows over partitions, shifts, cumulative
+   sums, ranks included - is the reference table, for all data *)
+Theorem polars_plan_is_the_reference : forall d a st,
+  pl_compile d a = Some st -> pflat_ok d a = true -> pl_export st = export_ref (sem_ref d a).
+Proof. exact pl_compile_correct_proof. Qed.
+Print Assumptions polars_plan_is_the_reference.
+
 (* non-vacuity: markers, partitions and order-sensitive windows on a small table *)
 Example window_example :
   let d := [("t"%string, [[VInt 1; VInt 3]; [VInt 1; VNull]; [VInt 2; VInt 5]; [VInt 1; VInt 2]])] in
@@ -74,5 +91,6 @@ Example window_example :
       ("cs"%string, 4%N, EFn Op_cum_sum [ECol 2%N] true [ECol 1%N] [(ECol 2%N, (false, Some false))])] in
   f_rows (export_ref (sem_ref d a))
   = [[VInt 1; VInt 3; VInt 1; VInt 5]; [VInt 1; VNull; VInt 3; VNull];
-     [VInt 2; VInt 5; VInt 1; VInt 5]; [VInt 1; VInt 2; VInt 2; VInt 2]].
-Proof. vm_compute. reflexivity. Qed.
+     [VInt 2; VInt 5; VInt 1; VInt 5]; [VInt 1; VInt 2; VInt 2; VInt 2]]
+  /\ pflat_ok d (Arrange a [(ECol 3%N, (false, Some true)); (ECol 2%N, (true, Some false))]) = true.
+Proof. vm_compute. split; reflexivity. Qed.
